@@ -46,7 +46,7 @@ pub struct MultiSignerImpl { pub epoch_service: EpochService }
 impl MultiSignerImpl {
     //@extract file=mithril-aggregator/src/multi_signer.rs fn=run_verify_single_signature within="impl MultiSignerImpl"
     //@ rewrite /StdResult<\(\)>/ => /Result<(), StdError>/
-    //@ rewrite? /(?s)debug!\(.*?\);[ \t]*\n/ => //
+    //@ rewrite? /(?s)(?:slog::)?(?:debug|info|warn|trace|error)!\(.*?\);[ \t]*\n/ => //
     //@ rewrite? /(?s)\s*\.with_context\(\|\| \{\s*format!\(.*?\)\s*\}\)/ => //
     //@ rewrite? /(?s)\s*\.with_context\(\|\| format!\(.*?\)\)/ => //
     //@ spec ensures (ret is Ok) == common_accepts(protocol_multi_signer, message@, single_signature)
@@ -87,7 +87,7 @@ impl SingleSignatureAuthenticator {
     //@ rewrite /pub async fn/ => /fn/
     //@ rewrite /\.await/ => //
     //@ rewrite /StdResult<\(\)>/ => /Result<(), StdError>/
-    //@ rewrite? /(?s)debug!\(.*?\);[ \t]*\n/ => //
+    //@ rewrite? /(?s)(?:slog::)?(?:debug|info|warn|trace|error)!\(.*?\);[ \t]*\n/ => //
     //@ spec ensures ret is Ok,
     //@ spec     // Authenticated exactly when the common verification succeeds for the current or the next stake distribution
     //@ spec     (final(single_signature).authentication_status == SingleSignatureAuthenticationStatus::Authenticated)
